@@ -578,6 +578,9 @@ var ndLabelPairs = []struct {
 	{"str-values-vs-num-key", lblSpec{L: map[string][]string{"a": {"\x01", "k", ""}}}, lblSpec{L: map[string][]string{"a": {}}, N: map[string][]int64{"k": {}}}},
 	{"num[1]-vs-unit['']", lblSpec{N: map[string][]int64{"k": {1}}}, lblSpec{N: map[string][]int64{"k": {}}, U: map[string][]string{"k": {""}}}},
 	{"str-value-vs-next-key", lblSpec{L: map[string][]string{"a": {"b"}, "c": {}}}, lblSpec{L: map[string][]string{"a": {}, "b": {"c"}}}},
+	{"unit-vs-next-key", lblSpec{N: map[string][]int64{"a": {1}, "c": {}}, U: map[string][]string{"a": {"b"}}}, lblSpec{N: map[string][]int64{"a": {1}, "b": {99}}, U: map[string][]string{"b": {""}}}},
+	{"nul-terminated-key-vs-value", lblSpec{L: map[string][]string{"a\x00\x01b": {}}}, lblSpec{L: map[string][]string{"a": {"b"}}}},
+	{"nul-in-value", lblSpec{L: map[string][]string{"a": {"b\x00", ""}}}, lblSpec{L: map[string][]string{"a": {"b", "\x00"}}}},
 	{"num-128-vs-[0,1]", lblSpec{N: map[string][]int64{"k": {128}}}, lblSpec{N: map[string][]int64{"k": {0, 1}}}},
 }
 
@@ -687,6 +690,28 @@ func genLabelSoup(r *Rng) c03Gen {
 	q := cloneP(p)
 	shuffleTables(r, q)
 	return c03Gen{kind: "label-soup", profiles: []*profile.Profile{p, q}}
+}
+
+// ---- digit soups: inline chains whose line/column numbers share hex digits ----
+
+func genDigitSoup(r *Rng) c03Gen {
+	p := ndBase()
+	p.Sample = nil
+	p.Location = nil
+	nums := []int64{1, 0x11, 0x111, 2, 0x12, 0x21, 0x1, 0x10, 0, -1, -0x11, 0x7c, 0x2d}
+	n := 8 + r.Intn(10)
+	for i := 0; i < n; i++ {
+		l := &profile.Location{ID: uint64(i + 1), Mapping: p.Mapping[0], Address: 0x1100}
+		for j, m := 0, 1+r.Intn(2); j < m; j++ {
+			l.Line = append(l.Line, profile.Line{Function: p.Function[r.Intn(2)], Line: nums[r.Intn(len(nums))], Column: nums[r.Intn(len(nums))]})
+		}
+		p.Location = append(p.Location, l)
+		p.Sample = append(p.Sample, &profile.Sample{Location: []*profile.Location{l}, Value: []int64{int64(1 + r.Intn(9)), int64(r.Intn(3))}})
+	}
+	q := cloneP(p)
+	renumber(r, q)
+	shuffleTables(r, q)
+	return c03Gen{kind: "digit-soup", profiles: []*profile.Profile{p, q}}
 }
 
 // ---- header grid ----
